@@ -119,6 +119,13 @@ def check(pid, tier, seed, replay=None):
             for ri, k, e, sig in tbads:
                 v.violation("derivation program %s: hooks run by the emitting logger are not its own hooks, once each, in order" % json.loads(trecs[ri][0])["id"],
                             {"property": pid, "kind": "tree", "script": json.loads(trecs[ri][0]), "recording": [json.loads(x) for x in trecs[ri][1]], "bad_line": k + 1})
+            # a LevelHook is a hook: it hands the event, its level and message to the hook configured for exactly that level
+            # (spec/aux/LevelHook.tla: every configuration of the eight slots x every level)
+            from checks import ext
+            lh_bads, lh_stats = ext.part(sc, tier, "X02")
+            for script, e in lh_bads:
+                v.violation("LevelHook history %s: the hook of the event's level did not run exactly once with the event's level and message: %s" % (script["id"], json.dumps(e)[:300]),
+                            {"property": pid, "kind": "levelhook", "script": script, "recording": e})
         nprog = sum(len(rr) - 1 for rr in shard_lines) + tree_n
         if drift:
             log("%s: MODEL DRIFT: %d recordings do not follow Render() of EventDoc (no verdict)" % (pid, drift))
